@@ -90,7 +90,8 @@ pub fn gen_ops(rng: &mut Rng) -> Vec<Op> {
             0 => Op::HRead { h: 0, n: *rng.pick(&[1usize, 100, 5000]) },
             1 => Op::HReadFull { h: 0, n: *rng.pick(&[10usize, 4096, 30_000]) },
             2 => Op::HFillBuf { h: 0 },
-            3 | 4 => Op::HWriteAll { h: 0, len: *rng.pick(&[1usize, 100, 4000, 6000]), nonce: n() },
+            3 => Op::HWriteAll { h: 0, len: *rng.pick(&[1usize, 100, 4000, 6000]), nonce: n() },
+            4 => Op::HWrite { h: 0, len: *rng.pick(&[1usize, 100, 1024, 4000, 6000]), nonce: n() },
             5 => Op::HFlush { h: 0 },
             6 => Op::HSeek { h: 0, whence: *rng.pick(&[Whence::Start, Whence::End, Whence::Current]), off: 0, uoff: 0 },
             7 => Op::HSetLen { h: 0, n: *rng.pick(&[0u64, 1, 64, 100, 4095, 4096, 8000]) },
@@ -110,6 +111,9 @@ pub struct Judge {
     pub property: &'static str,
     pub image: bool,
     pub bystanders: bool,
+    /// C10: a call through the stale handle that is REFUSED (NotFound / AlreadyExists /
+    /// InvalidInput) leaves the bytes and what the handle reports (len, position) unchanged
+    pub refusals: bool,
 }
 
 pub fn run(case: &Case, j: Judge) -> Outcome {
@@ -135,8 +139,36 @@ pub fn run(case: &Case, j: Judge) -> Outcome {
     for (i, op) in case.ops.iter().enumerate() {
         // (minimisation may delete the removal: then there is nothing stale and the op list is an
         // ordinary history)
+        let before = if j.refusals && stale && op.handle() == Some(0) && !matches!(op, Op::HDrop { .. }) {
+            Some((lib.disk.snapshot(), lib.exec(&Op::HLen { h: 0 }), lib.exec(&Op::HPos { h: 0 })))
+        } else {
+            None
+        };
         let got = lib.exec(op);
         o.stats.api_calls += 1;
+        if let (Some((img, len0, pos0)), Res::Err(kind, _)) = (&before, &got) {
+            if matches!(kind, crate::ops::ErrKind::NotFound | crate::ops::ErrKind::AlreadyExists | crate::ops::ErrKind::InvalidInput) {
+                o.stats.probe("stale_call_refused");
+                o.stats.boundary_checks += 1;
+                // write_all / the read loop are several calls: the earlier ones may have had their effect
+                let single = !matches!(op, Op::HWriteAll { .. } | Op::HReadFull { .. });
+                if single && lib.disk.snapshot() != *img {
+                    report(&mut o, "no-effect.image-changed", op.kind(), format!("step {} {} through a handle whose stream was removed was refused ({}), but the underlying bytes changed", i, op.to_json(), got.brief()), i);
+                    break;
+                }
+                let (len1, pos1) = (lib.exec(&Op::HLen { h: 0 }), lib.exec(&Op::HPos { h: 0 }));
+                if single && (len1.brief() != len0.brief() || pos1.brief() != pos0.brief()) {
+                    report(
+                        &mut o,
+                        "no-effect.handle-state-changed",
+                        op.kind(),
+                        format!("step {} {} through a handle whose stream was removed was refused ({}), but the handle now reports len {} (before: {}) and position {} (before: {})", i, op.to_json(), got.brief(), len1.brief(), len0.brief(), pos1.brief(), pos0.brief()),
+                        i,
+                    );
+                    break;
+                }
+            }
+        }
         match &got {
             Res::Panic(p) => {
                 // (panics and runaways are C11's subject; the other users of the scenario end the case)
